@@ -48,8 +48,13 @@ def gen_hist_case(rng, max_n=6, max_ops=7):
                 sel["root"] = sorted(rng.sample(roots, 1))
             xr = random.Random(rng.getrandbits(30))
             if mode < 0.45 and xr.random() < 0.4:
-                # an exclusion next to the targets / roots (it may make the selection impossible: ValueError)
-                sel["exclude"] = sorted(xr.sample(range(n), 1))
+                # an exclusion next to the targets / roots (it may make the selection impossible: ValueError).
+                # C12's hypothesis: an excluded node lies in the graph left by the root step
+                pool_ = list(range(n))
+                if sel["root"]:
+                    pool_ = sorted(kgraph.descendants(n, edges, sel["root"]))
+                if pool_:
+                    sel["exclude"] = sorted(xr.sample(pool_, 1))
             elif mode >= 0.6 and xr.random() < 0.15:
                 sel["exclude"] = sorted(xr.sample(range(n), 1))
             if mode < 0.45:
